@@ -107,6 +107,11 @@ def ensure_harness_mod():
     if os.path.exists(extra):
         text += open(extra).read()
     write_if_changed(dst, text)
+    # the harness module builds against REPO (normally /repo; a scratch copy when VERIF_REPO is set)
+    gm = os.path.join(HARNESS, "go.mod")
+    lines = open(gm).read().split("\n")
+    new = ["replace github.com/risor-io/risor => " + REPO if l.startswith("replace github.com/risor-io/risor =>") else l for l in lines]
+    write_if_changed(gm, "\n".join(new))
 
 
 def go_build(pkg, out=None, tags="verif", race=False, cover=False, overlay=None):
